@@ -115,6 +115,40 @@ def main() -> int:
                                      f"{desc}: read with password {wrong!r} returned secrets {str(leaked)[:120]}")
                             if len(out["samples"]) < 3:
                                 out["samples"].append({"names": list(subset), "password": pw, "archive_bytes": len(data)})
+        # secrets and resources at the size limit of a cluster object (1 MiB of data; the stored file is a little larger)
+        MIB = 1024 * 1024
+        for size in (MIB - 4096, MIB - 20, MIB):
+            for where in ("secret", "resource"):
+                for pw in (None, "correct horse"):
+                    out["evaluations"] += 1
+                    out["nontrivial"] += 1
+                    blob = ("0123456789abcdef" * (size // 16 + 1))[:size]
+                    d = cr("app", 1)
+                    sec = {"app": {"SMALL": "v"}}
+                    if where == "secret":
+                        sec["app"]["BLOB"] = blob
+                    else:
+                        d["spec"]["text"] = blob
+                    w = {"encrypted": pw is not None, "deployments": 1, "large": where}
+                    desc = f"one deployment, {where} holding {size} bytes, password={pw!r}"
+                    try:
+                        data = archive.create_backup_archive([json.loads(json.dumps(d))], json.loads(json.dumps(sec)), "ns", "t",
+                                                             encryption_password=pw, generations={"app": 3})
+                        back = archive.read_backup_archive(data, encryption_password=pw)
+                    except Exception as e:  # noqa: BLE001
+                        viol("backup_round_trip_raises", {**w, "exc": type(e).__name__}, f"{desc}: {type(e).__name__}: {e}")
+                        continue
+                    got = {e.name: e for e in back.entries}
+                    if sorted(got) != ["app"]:
+                        viol("deployment_names_differ", w, f"{desc}: restored names {sorted(got)}")
+                        continue
+                    e = got["app"]
+                    if e.cr != d:
+                        viol("deployment_resource_differs", w, f"{desc}: restored resource differs")
+                    if e.secret != sec["app"]:
+                        viol("secret_differs", {**w, "kind": "values"}, f"{desc}: restored secret keys {sorted(e.secret) if isinstance(e.secret, dict) else e.secret}")
+                    if e.generation != 3:
+                        viol("generation_differs", {**w, "expected": 3}, f"{desc}: generation {e.generation}")
         # a few cases at the real KDF cost
         encryption.PBKDF2_ITERATIONS = real_iters
         for pw in ("correct horse", "pä☃ßword"):
